@@ -330,7 +330,9 @@ Non-trivial = text with a character the normaliser changes, a multi-byte charact
         .map(|(ws, n)| {
             let pool = ['火', '星', 'ｱ', 'a', '1', '。', '𠀋', 'あ', 'ｶ', 'ﾞ', '-', '猫'];
             let text: String = (0..n)
-                .map(|i| if i % 997 == 0 { '\n' } else if i % 997 == 996 { '\r' } else { pool[(i * 7 + i / 11) % pool.len()] })
+                // (every line starts with a character of type Other, which wsconst O merges with
+                // the line break in front of it)
+                .map(|i| if i % 997 == 0 { '\n' } else if i % 997 == 996 { '\r' } else if i % 997 == 1 { ['。', '「', '\u{3000}'][(i / 997) % 3] } else { pool[(i * 7 + i / 11) % pool.len()] })
                 .collect();
             StreamCase { spec: long_spec(), texts: vec![text], wsconst: ws.to_string() }
         })
